@@ -37,7 +37,7 @@ ASSUMPTIONS = [
     "a field value 'changes' when it is replaced by another object that is not an equal value of the same type; node-valued fields must keep the identical object",
     "registry membership may change only as specified for detach / replace (C03's subject) and is not part of the frame",
 ]
-MUST_SEE = ["ops", "frames_checked", "raising_ops", "watched_writes_on_new_nodes", "setattr_rejected", "delattr_rejected", "repo_tests_contract_evaluations", "deserialize_registry_hits", "failing_replace_on_suffix_twin"]
+MUST_SEE = ["ops", "frames_checked", "raising_ops", "watched_writes_on_new_nodes", "setattr_rejected", "delattr_rejected", "repo_tests_contract_evaluations", "deserialize_registry_hits", "failing_replace_on_suffix_twin", "transform_returns_existing_node"]
 CONFIG = {
     "quick": {"shards": 16, "histories": 12, "ops": 35, "watchdog_s": 600},
     "thorough": {"shards": 32, "histories": 200, "ops": 60, "watchdog_s": 3400},
@@ -269,7 +269,7 @@ def histories(ctx, U, state, take_frame, diff_frame):
 
             V().visit(n)
             target = rng.choice([f"{P}Leaf", f"{P}Un", f"{P}Name", f"{P}List"])
-            action = rng.choice(["rewrite", "remove", "fresh"])
+            action = rng.choice(["rewrite", "remove", "fresh", "unwrap", "unwrap"])
 
             def rule(self_, node):
                 if raising and rng.random() < 0.5:
@@ -279,8 +279,17 @@ def histories(ctx, U, state, take_frame, diff_frame):
                     return dataclasses.replace(g, origin=O.build_origin(("gen", 2)))
                 if action == "remove":
                     return None
+                if action == "unwrap":
+                    # hand back an already existing node (the first child) in place of its parent
+                    kids = list(node.get_child_nodes())
+                    if kids:
+                        ctx.count("transform_returns_existing_node")
+                        return kids[0]
+                    return node
                 return U.cls[f"{P}Leaf"](v=4242)
 
+            if action == "unwrap":
+                target = rng.choice([f"{P}Un", f"{P}Bin", f"{P}Slot", f"{P}Ann", f"{P}Case"])
             TV = type("TV", (ASTTransformVisitor,), {f"visit_{target}": rule})
             try:
                 r = TV().transform(n)
